@@ -27,8 +27,9 @@ func init() {
 			}
 			return 2500
 		},
-		Run:      runC10,
-		Required: []string{"faults_injected", "later_calls_checked", "invalid_requests_checked", "deadline_pairs_checked"},
+		Run:          runC10,
+		BeatTimeoutS: 60,
+		Required:     []string{"faults_injected", "later_calls_checked", "invalid_requests_checked", "deadline_pairs_checked"},
 		Assumptions: []string{
 			"mask keys are replayed from a deterministic source (VerifSetMaskRand) so that the faulted run is byte-comparable with the clean run",
 			"exhaustive over operation index x fault kind for each generated program; programs are sampled",
